@@ -86,6 +86,65 @@ def run_ground(res, repo, task, findings):
     return out
 
 
+def run_frames(res, repo, rules, table, findings_known, replay=None):
+    """syntactic frame obligations: one obligation per (rule, module); a finding outside the allow-list refutes it"""
+    from .frames import analyse
+    from contracts.frames import allowed
+    mods, fs = analyse(repo)
+    fs = [f for f in fs if f.rule in rules]
+    per = {}
+    for m in mods:
+        for r in rules:
+            per[(r, m)] = []
+    bad = []
+    nallowed = 0
+    for f in fs:
+        why = allowed(f, table)
+        if why is None:
+            bad.append(f)
+            per.setdefault((f.rule, f.module), []).append(f)
+        else:
+            nallowed += 1
+    res.obligations += len(per)
+    res.discharged += len([k for k, v in per.items() if not v])
+    res.extra.setdefault('frames', []).append({'rules': list(rules), 'modules': len(mods), 'findings': len(fs), 'allowed': nallowed,
+                                               'unlisted': [f.to_json() for f in bad][:20],
+                                               'functions_analysed': sum(len(m.funcs) for m in mods.values())})
+    for f in fs[:6]:
+        if len(res.samples) < 12:
+            res.samples.append({'obligation': f.name, 'status': 'allowed: ' + (allowed(f, table) or 'NO')[:80]})
+    res.trusted.add('frame analysis is syntactic and name based (sound only without reflection: rule `reflection` checks getattr/setattr/__dict__/exec/eval/globals are absent)')
+    for f in bad:
+        known = [k for k in findings_known if k['property'] == res.pid and k.get('frames') and
+                 k['frames'].get('rule') == f.rule and k['frames'].get('module') == f.module and k['frames'].get('function') == f.qual]
+        if known:
+            line = 'KNOWN-FINDING: property=%s %s' % (res.pid, known[0]['what'])
+            if line not in res.known:
+                res.known.append(line)
+            res.excluded_by_known.append(f.name)
+            continue
+        rdir = os.environ.get('PYVC_REPLAY_DIR') or 'replay'
+        import hashlib
+        path = os.path.join(rdir, res.pid, 'frames-%s-%s.json' % (f.rule, hashlib.sha1(f.name.encode()).hexdigest()[:8]))
+        full = path if os.path.isabs(path) else os.path.join(D.VERIF, path)
+        os.makedirs(os.path.dirname(full), exist_ok=True)
+        spec = {'property': res.pid, 'obligation': f.name, 'finding': f.to_json(), 'verifier_output': f.detail}
+        confirmed = False
+        if replay and f.rule in replay:
+            env = dict(os.environ)
+            env.pop('PYTHONPATH', None)
+            p = subprocess.run([D.VENV_PY, os.path.join(D.VERIF, 'pyvc', replay[f.rule]), repo], capture_output=True, text=True, timeout=900, env=env)
+            try:
+                out = json.loads(p.stdout.strip().split('\n')[-1])
+                spec['native'] = out
+                confirmed = bool(out.get('confirmed'))
+            except Exception:
+                spec['native'] = {'error': (p.stdout + p.stderr)[-300:]}
+        json.dump(spec, open(full, 'w'), indent=1)
+        res.violations.append({'obligation': f.name, 'replay': path, 'confirmed': confirmed,
+                               'detail': '%s: %s (line %d of %s.py)' % (f.rule, f.detail, f.line, f.module), 'witness': f.to_json()})
+
+
 def run_bounded(res, repo, spec, seed, tier):
     env = dict(os.environ)
     env.pop('PYTHONPATH', None)
@@ -161,6 +220,10 @@ def main(argv):
             res.extra['cpython_crosscheck'] = cc
         if P.get('rxdiff'):
             run_rxdiff(res, a.repo, P['rxdiff'], 7 if a.tier == 'quick' else 9)
+        if P.get('frames'):
+            from contracts import frames as CF
+            fr = P['frames']
+            run_frames(res, a.repo, fr['rules'], getattr(CF, fr['allow']), findings, fr.get('replay'))
         for spec in P.get('bounded', []):
             run_bounded(res, a.repo, spec, seed, a.tier)
         for task in P.get('ground', []):
